@@ -104,9 +104,10 @@ def write_cmake(config: kconfiglib.Kconfig, filename: str, write_deprecated: boo
                 if write_deprecated and deprecated_options:
                     dep_opts = deprecated_options.get_deprecated_option(sym.name)
                     for opt in dep_opts:
+                        dep_val = val
                         if deprecated_options.is_inversion(opt) and sym.orig_type == kconfiglib.BOOL:
-                            val = "y" if not val else ""
-                        tmp_dep_list.append('set({}{} "{}")\n'.format(prefix, opt, val))
+                            dep_val = "y" if not val else ""
+                        tmp_dep_list.append('set({}{} "{}")\n'.format(prefix, opt, dep_val))
                         configs_list.append(prefix + opt)
 
         for n in config.node_iter():
